@@ -157,6 +157,7 @@ pub struct Sim<'a> {
     seen_history: Vec<usize>,
     last_commit: Vec<u64>,
     last_core_commit: Vec<u64>,
+    hole_seen: Vec<bool>,
     /// (index, entry term, data, term of the leader that committed it)
     leader_committed: Vec<(u64, u64, u64, u64)>,
     appended_any: bool,
@@ -219,6 +220,7 @@ impl<'a> Sim<'a> {
             seen_history: vec![0; n as usize],
             last_commit: vec![0; n as usize],
             last_core_commit: vec![0; n as usize],
+            hole_seen: vec![false; n as usize],
             leader_committed: vec![],
             appended_any: false,
             tail_data: vec![],
@@ -511,9 +513,13 @@ impl<'a> Sim<'a> {
                 0 => {
                     // a node has just become leader
                     if rng.below(100) < adapt[0] {
-                        for _ in 0..rng.range(1, 3) {
+                        // either spread out, or a pipelined burst: several appends in the same millisecond,
+                        // so that their Append requests are in flight together and can overtake each other
+                        let burst = rng.chance(1, 3);
+                        let at = now_ms + rng.range(5, 900);
+                        for _ in 0..rng.range(1, if burst { 4 } else { 3 }) {
                             *next_data += 1;
-                            new_events.push(Ev::Append { at_ms: now_ms + rng.range(5, 900), node, data: *next_data });
+                            new_events.push(Ev::Append { at_ms: if burst { at } else { now_ms + rng.range(5, 900) }, node, data: *next_data });
                         }
                     }
                     if rng.below(100) < adapt[1] {
@@ -656,6 +662,15 @@ impl<'a> Sim<'a> {
                     return;
                 }
             }
+            // reach probe (diagnostic, no verdict): a node whose log has a gap in its indices
+            if !self.hole_seen[i] {
+                let mut idx: Vec<u64> = self.nodes[i].storage.entries.iter().map(|e| e.index).collect();
+                idx.sort();
+                if idx.windows(2).any(|w| w[1] > w[0] + 1) {
+                    self.hole_seen[i] = true;
+                    self.stats.count("probe.node_log_has_index_gap");
+                }
+            }
             // commit index never decreases
             let c = self.nodes[i].storage.commit;
             if c < self.last_commit[i] {
@@ -783,7 +798,7 @@ impl<'a> Sim<'a> {
         }
     }
 
-    /// G3: a follower accepts an entry at index i although its entry at i-1 is missing or differs from the sender's.
+    /// G3: a follower accepts an entry at index i although its entry at i-1 differs from the sender's (G12: is missing).
     fn ghost_g3(&mut self, from: u64, to: u64, before: &[(u64, u64, u64)]) {
         if self.ghosts.iter().any(|g| g.starts_with("G3:")) {
             return;
@@ -796,7 +811,17 @@ impl<'a> Sim<'a> {
         }
         let mine: Vec<(u64, u64)> = after.iter().filter(|e| e.0 == first - 1).map(|e| (e.1, e.2)).collect();
         let theirs: Vec<(u64, u64)> = self.nodes[from as usize].storage.entries.iter().filter(|e| e.index == first - 1).map(|e| (e.term, e.data)).collect();
-        if mine.is_empty() || theirs.is_empty() || !mine.iter().any(|m| theirs.contains(m)) {
+        if mine.is_empty() {
+            // G12: nothing at all at i-1 - the follower's log now has a gap. The shipped code never does this
+            // (both branches of validate_log_append require log_index + 1 >= i); it is not part of any recorded
+            // finding, so the run goes on and whatever follows is judged.
+            if !self.ghosts.iter().any(|g| g.starts_with("G12:")) {
+                self.ghosts.push("G12:follower-accepts-entry-leaving-an-index-gap".to_string());
+                self.stats.count("ghost.G12");
+            }
+            return;
+        }
+        if theirs.is_empty() || !mine.iter().any(|m| theirs.contains(m)) {
             self.ghosts.push("G3:follower-accepts-entry-without-matching-previous-entry".to_string());
             self.stats.count("ghost.G3");
             if self.trace {
